@@ -41,6 +41,16 @@ def parseName (name : Str) : Option (Str × Str × Str) :=
     | _ => none
   else none
 
+/-- the alphabet of `utils.RandomString` (constant `letters` in utils/utils.go), from which
+cluster/calcium/create.go draws the 6-character workload-name suffix; the harness re-reads the
+constant from the source on every run and the oracle compares it with this definition -/
+def suffixLetters : Str := "abcdefghijklmnopqrstuvwxyzABCDEFGHIJKLMNOPQRSTUVWXYZ".toList
+
+/-- what ParseWorkloadName needs from the suffix alphabet: no '_' (the name is split on '_' and the
+last two fields are taken as entrypoint and suffix) -/
+def SuffixAlphabetOK (alpha : Str) : Prop := '_' ∉ alpha
+instance (alpha : Str) : Decidable (SuffixAlphabetOK alpha) := by unfold SuffixAlphabetOK; infer_instance
+
 /-- names the request validation accepts (types/options.go DeployOptions.Validate,
 types/specs.go Entrypoint.Validate, AddNodeOptions.Validate): application and node names are
 any non-empty strings, entrypoint names are non-empty and contain no '_' -/
